@@ -2,6 +2,7 @@
 //! dedup all digests and logical paths, greatly reducing the memory used, and marginally increasing
 //! the deserialization speed.
 
+use std::borrow::Cow;
 use std::collections::hash_map::Entry;
 use std::collections::{BTreeMap, HashMap};
 use std::convert::TryFrom;
@@ -405,7 +406,11 @@ impl<'de: 'b, 'a, 'b> DeserializeSeed<'de> for ManifestSeed<'a, 'b> {
             {
                 let mut manifest = PathBiMap::with_capacity(map.size_hint().unwrap_or(0));
 
-                while let Some((digest, paths)) = map.next_entry::<&str, Vec<ContentPath>>()? {
+                // Strings are not read as borrowed `&str` because a string that contains a JSON
+                // escape sequence cannot be borrowed from the input
+                while let Some((digest, paths)) =
+                    map.next_entry::<Cow<str>, Vec<ContentPath>>()?
+                {
                     let path_refs = paths.into_iter().map(Rc::new).collect();
                     manifest.insert_multiple_rc(self.data.insert_digest(digest), path_refs);
                 }
@@ -446,7 +451,7 @@ impl<'de: 'b, 'a, 'b> DeserializeSeed<'de> for StateSeed<'a, 'b> {
             {
                 let mut state = PathBiMap::with_capacity(map.size_hint().unwrap_or(0));
 
-                while let Some((digest, paths)) = map.next_entry::<&str, Vec<&str>>()? {
+                while let Some((digest, paths)) = map.next_entry::<Cow<str>, Vec<Cow<str>>>()? {
                     let digest_ref = self.data.insert_digest(digest);
                     let mut path_refs = Vec::with_capacity(paths.len());
 
@@ -467,8 +472,8 @@ impl<'de: 'b, 'a, 'b> DeserializeSeed<'de> for StateSeed<'a, 'b> {
 
 #[derive(Debug)]
 struct DigestsAndPaths<'a> {
-    digests: HashMap<&'a str, Rc<HexDigest>>,
-    paths: HashMap<&'a str, Rc<LogicalPath>>,
+    digests: HashMap<Cow<'a, str>, Rc<HexDigest>>,
+    paths: HashMap<Cow<'a, str>, Rc<LogicalPath>>,
 }
 
 impl<'a> DigestsAndPaths<'a> {
@@ -479,22 +484,25 @@ impl<'a> DigestsAndPaths<'a> {
         }
     }
 
-    fn insert_digest(&mut self, digest: &'a str) -> Rc<HexDigest> {
-        self.digests
-            .entry(digest)
-            .or_insert_with(|| Rc::new(digest.into()))
-            .clone()
+    fn insert_digest(&mut self, digest: Cow<'a, str>) -> Rc<HexDigest> {
+        match self.digests.entry(digest) {
+            Entry::Occupied(entry) => entry.get().clone(),
+            Entry::Vacant(vacant) => {
+                let digest_rc = Rc::new(vacant.key().as_ref().into());
+                vacant.insert(digest_rc).clone()
+            }
+        }
     }
 
-    fn insert_path<E>(&mut self, path: &'a str) -> Result<Rc<LogicalPath>, E>
+    fn insert_path<E>(&mut self, path: Cow<'a, str>) -> Result<Rc<LogicalPath>, E>
     where
         E: SerdeError,
     {
         match self.paths.entry(path) {
             Entry::Occupied(entry) => Ok(entry.get().clone()),
             Entry::Vacant(vacant) => {
-                let path =
-                    LogicalPath::try_from(path).map_err(|e| SerdeError::custom(e.to_string()))?;
+                let path = LogicalPath::try_from(vacant.key().as_ref())
+                    .map_err(|e| SerdeError::custom(e.to_string()))?;
                 let path_rc = Rc::new(path);
                 let clone = path_rc.clone();
                 vacant.insert(path_rc);
